@@ -24,6 +24,7 @@ func init() {
 			"R01.5 the router middleware calls the next handler only when a route matched (with the request carrying it), answers 405 only with the non-empty list of other methods and 404 otherwise, and the operation executor invokes the matched route's handler; " +
 			"R01.8 the structural rules of the trie that dispatch relies on (sorted build, reserved bases, static map first, separator set, complete backtracking — shared with C05); R01.6 the reserved-byte workaround (composite placeholders) cannot index or slice out of range; R01.7 the offset used to detect a composite placeholder equals the length of the literal text searched around the name. " +
 			"R01.2 also: the raw request path is used for nothing but path.Clean (and debug logging) in Lookup and OtherMethods. " +
+			"R01.8 also (shared with C05): the any-parameter flag is asked at every position of the walk and a set flag always registers the position; R01.2 also: Build ranges over the recorded methods themselves. " +
 			"NOT decided: which pattern the trie matches, literal-over-parameter preference, exactness of the Allow set (C05 covers the trie's structural part).",
 		Run: runC01,
 	})
